@@ -46,7 +46,8 @@ system are trusted.  What is proved here, for ALL signatures / documents / param
              (`ksize_filter_dna_partial`).  The project's own tests rely on the stored size
              (`load_one_signature(sig, ksize=57)` selects a protein k=19 sketch), so it is not repaired.
 -/
-import SmVerif.Lemmas.SigJsonPy
+import SmVerif.Lemmas.SigJsonState
+import SmVerif.Lemmas.JsonTextRead
 
 namespace Sm.C09
 
@@ -695,6 +696,251 @@ hash_function); names were also cut at NUL and an empty name became "no name" -/
 theorem license_old_variant :
     ((decodeDoc [sig0 [sk0] "CC-BY"]).toOption.bind (fun l => (Py.finishLoadWith true (flatten l)).toOption)).map
       (fun l => l.map (·.license)) = some ["CC0"] := rfl
+
+/-! ### (D) the JSON text itself
+
+`Model/JsonText.lean` brings the text inside the model: a one-pass lexer, a tree parser that stops
+at the first syntax error, serde's derived readers walked in document order (any key order, unknown
+keys ignored, duplicates refused, defaults, map or sequence form, the untagged `Sketch` enum with
+its recursion limit), and the compact printer with serde_json's escaping.  `renderDoc` is compared
+BYTE FOR BYTE with what `save_signatures_to_json` writes on every `save` of the correspondence
+stream; `readText` is compared with the real loader on generated and damaged texts. -/
+
+/-- every string -- any sequence of Unicode scalar values, control characters, quotes, backslashes,
+astral planes -- survives escaping and unescaping -/
+theorem string_escape_roundtrip (s : List Char) :
+    JsonText.lex (JsonText.printToks [.str s]) = [.str s] :=
+  JsonText.lex_printToks _ (by intro t ht; simp only [List.mem_singleton] at ht; subst ht; trivial) trivial
+
+/-- every unsigned 64-bit integer is written in decimal and read back exactly -/
+theorem uint_roundtrip (n : Nat) (h : n < 2 ^ 64) :
+    JsonText.lex (JsonText.printToks [.num (.nat n)]) = [.num (.nat n)] :=
+  JsonText.lex_printToks _ (by
+    intro t ht; simp only [List.mem_singleton] at ht; subst ht; exact JsonText.numOk_nat h) trivial
+
+/-- an integer literal beyond 2^64-1 is not an integer for the reader (serde_json hands it over as a
+float, which no `u64` field accepts) -/
+theorem uint_beyond_u64 (n : Nat) (h : ¬ n < 2 ^ 64) :
+    JsonText.classifyNum (Nat.toDigits 10 n) = some (.other (Nat.toDigits 10 n)) := by
+  rw [JsonText.classifyNum_toDigits, if_neg h]
+
+/-- print, lex, parse: any tree without error nodes whose number tokens are well-formed comes back -/
+theorem tree_text_roundtrip (v : JsonText.JV) (h : v.Good) :
+    JsonText.parseTop (JsonText.lex (JsonText.printJV v)) = ⟨v, [], true⟩ :=
+  JsonText.parse_lex_print v h
+
+/-- **text_roundtrip (parse ∘ render = id).**  For every list of well-formed signatures -- names,
+filenames and every other string arbitrary, hashes and abundances up to 2^64-1, empty sketches,
+several sketches per signature, several signatures per file -- reading the rendered text succeeds
+and yields the signatures (md5 caches empty), whatever string `md5hex` puts into the md5sum fields. -/
+theorem text_roundtrip (md5hex : Digest → List Char) {sigs : List Sig} (hw : ∀ s ∈ sigs, WF s)
+    (hv : ∀ s ∈ sigs, JsonText.VerTok s.version) :
+    JsonText.readText (JsonText.renderDoc md5hex sigs) = .ok (sigs.map (Sig.afterLoad false), 0) := by
+  have ht : Gen.md5TrustedFromFile = false := rfl
+  unfold JsonText.readText
+  rw [ht]
+  exact JsonText.readText_renderDoc md5hex _ (fun s hs => (hw s hs).encodable) hv
+
+/-- ... equal to what was written in every field the statement lists -/
+theorem text_roundtrip_same (md5hex : Digest → List Char) {sigs : List Sig} (hw : ∀ s ∈ sigs, WF s)
+    (hv : ∀ s ∈ sigs, JsonText.VerTok s.version) :
+    ∃ r, JsonText.readText (JsonText.renderDoc md5hex sigs) = .ok (r, 0) ∧ r.length = sigs.length ∧
+      ∀ i (h1 : i < r.length) (h2 : i < sigs.length), Sig.Same r[i] sigs[i] := by
+  refine ⟨_, text_roundtrip md5hex hw hv, by simp, ?_⟩
+  intro i h1 h2
+  simp only [List.getElem_map]
+  exact afterLoad_same false (hw _ (List.getElem_mem h2))
+
+/-- the text route and the field route of the model read the same signatures from a saved file -/
+theorem text_route_eq_field_route (md5hex : Digest → List Char) {sigs : List Sig} (hw : ∀ s ∈ sigs, WF s)
+    (hv : ∀ s ∈ sigs, JsonText.VerTok s.version) :
+    (JsonText.readText (JsonText.renderDoc md5hex sigs)).map Prod.fst = decodeDoc (encodeDoc sigs) := by
+  have ht : Gen.md5TrustedFromFile = false := rfl
+  rw [text_roundtrip md5hex hw hv]
+  unfold decodeDoc
+  rw [ht, decodeDoc_encode false _ (fun s hs => (hw s hs).encodable)]
+  rfl
+
+/-- signatures built through the Python API carry the default version token, which is one -/
+theorem normal_version_token {s : Sig} (h : PyNormal s) : JsonText.VerTok s.version := by
+  rw [h.version]; exact JsonText.verTok_default
+
+/-! #### what the reader does with texts that `save` does not write (kernel-checked samples; the
+correspondence stream compares thousands of damaged texts with the real loader) -/
+
+deriving instance DecidableEq for Except
+
+def txt (s : String) : Except Err (List Sig × Nat) := JsonText.readText s.toList
+
+/-- what the samples below look at: per signature (class, license + version, name, hashes of its sketches), and the
+number of HyperLogLog sketches -/
+def view (r : Except Err (List Sig × Nat)) : Option (List (String × String × Option String × List (List Nat)) × Nat) :=
+  r.toOption.map (fun r => (r.1.map (fun s => (s.cls, s.license ++ "/" ++ s.version, s.name,
+    s.sketches.map (fun k => k.mh.mins))), r.2))
+
+set_option synthInstance.maxSize 2000 in
+/-- keys in any order, unknown keys (also repeated, also deeply nested) ignored, defaults for the
+missing optional ones, white space between tokens -/
+theorem text_any_key_order :
+    view (txt " [ {\"zz\":[[[1]]],\"signatures\":[{\"num\":0,\"ksize\":21,\"seed\":42,\"max_hash\":1,\"mins\":[1],\"md5sum\":\"x\",\"molecule\":\"dna\"}],\"zz\":null,\n\"hash_function\":\"h\"} ]\n") =
+      some ([("sourmash_signature", "CC0/0.4", none, [[1]])], 0) := by decide +kernel
+
+/-- duplicate known keys, missing required keys, integers beyond u64 / floats / negative numbers in
+integer positions, leading zeros, trailing characters, lone surrogates: serde errors -/
+theorem text_refused :
+    txt "[{\"hash_function\":\"h\",\"hash_function\":\"h\",\"signatures\":[]}]" = .error .serde ∧
+    txt "[{\"signatures\":[]}]" = .error .serde ∧
+    txt "[{\"hash_function\":\"h\",\"signatures\":[{\"num\":0,\"ksize\":21,\"seed\":42,\"max_hash\":1,\"mins\":[18446744073709551616],\"md5sum\":\"x\",\"molecule\":\"dna\"}]}]" = .error .serde ∧
+    txt "[{\"hash_function\":\"h\",\"signatures\":[{\"num\":0,\"ksize\":21,\"seed\":42,\"max_hash\":1,\"mins\":[1.0],\"md5sum\":\"x\",\"molecule\":\"dna\"}]}]" = .error .serde ∧
+    txt "[{\"hash_function\":\"h\",\"signatures\":[{\"num\":0,\"ksize\":21,\"seed\":42,\"max_hash\":1,\"mins\":[-0],\"md5sum\":\"x\",\"molecule\":\"dna\"}]}]" = .error .serde ∧
+    txt "[{\"hash_function\":\"h\",\"signatures\":[{\"num\":0,\"ksize\":21,\"seed\":42,\"max_hash\":1,\"mins\":[01],\"md5sum\":\"x\",\"molecule\":\"dna\"}]}]" = .error .serde ∧
+    txt "[{\"hash_function\":\"h\",\"signatures\":[]}] x" = .error .serde ∧
+    txt "[{\"hash_function\":\"\\ud83d\",\"signatures\":[]}]" = .error .serde := by decide +kernel
+
+/-- streaming order: a sketch with an unknown molecule panics before a LATER syntax error is seen,
+but a syntax error inside that sketch (which is buffered first) wins -/
+theorem text_panic_before_later_error :
+    txt "[{\"hash_function\":\"h\",\"signatures\":[{\"num\":0,\"ksize\":21,\"seed\":42,\"max_hash\":1,\"mins\":[1],\"md5sum\":\"x\",\"molecule\":\"rna\"}], @@@" = .error .panic ∧
+    txt "[{\"hash_function\":\"h\",\"signatures\":[{\"num\":0,\"ksize\":21,\"seed\":42,\"max_hash\":1,\"mins\":[1],\"md5sum\":\"x\",\"molecule\":\"rna\", @@@" = .error .serde := by decide +kernel
+
+set_option synthInstance.maxSize 2000 in
+/-- serde also accepts the sequence forms of both records -/
+theorem text_sequence_forms :
+    view (txt "[[\"c\",\"\",\"h\",null,\"n\",\"L\",[[0,21,42,1,\"x\",[1],null,\"DNA\"]]]]") =
+      some ([("c", "L/0.4", some "n", [[1]])], 0) := by decide +kernel
+
+/-! ### (E) other sketch types in a signature file -/
+
+def hllTxt : String := "[{\"hash_function\":\"h\",\"signatures\":[{\"registers\":[0,255],\"p\":1,\"q\":63,\"ksize\":21}]}]"
+
+set_option synthInstance.maxSize 2000 in
+theorem hll_read : view (txt hllTxt) = some ([("sourmash_signature", "CC0/0.4", none, [])], 1) := by decide +kernel
+
+/-- a HyperLogLog sketch is accepted by the reader (third variant of the untagged enum) -- and then
+`load_signatures` panics on it (`Sketch::HyperLogLog(_) => unimplemented!()`): through the FFI such
+a file raises `Panic`, with or without a filter, by buffer or by path.  Neither skipped nor loaded. -/
+theorem hll_accepted_then_panics {cs : List Char} {sigs : List Sig} {n : Nat}
+    (hr : JsonText.readText cs = .ok (sigs, n)) (hn : n ≠ 0)
+    (viaPath : Bool) (b : List Nat) (g1 g2 : JsonText.Stream) (k : Nat)
+    (hs : JsonText.nifflerSniff b = some .none) (hu : JsonText.utf8Text b = some cs) :
+    JsonText.ffiLoadBytes viaPath b g1 g2 k none = .error .panic := by
+  unfold JsonText.ffiLoadBytes JsonText.nifflerLayer
+  cases viaPath <;>
+    simp [hs, bind, Except.bind, pure, Except.pure, JsonText.readStream, hu, hr, hn]
+
+/-- registers must be bytes: otherwise no variant matches -/
+theorem hll_bad_registers :
+    txt "[{\"hash_function\":\"h\",\"signatures\":[{\"registers\":[0,256],\"p\":1,\"q\":63,\"ksize\":21}]}]" = .error .serde := by
+  decide +kernel
+
+/-! ### (F) compression: decided by the first bytes, never by the file name -/
+
+theorem niffler_needs_five_bytes (b : List Nat) (h : b.length < 5) : JsonText.nifflerSniff b = none := by
+  match b, h with
+  | [], _ => rfl
+  | [_], _ => rfl
+  | [_, _], _ => rfl
+  | [_, _, _], _ => rfl
+  | [_, _, _, _], _ => rfl
+  | _ :: _ :: _ :: _ :: _ :: _, h => simp at h; omega
+
+theorem niffler_gzip (b2 b3 b4 : Nat) (r : List Nat) :
+    JsonText.nifflerSniff (0x1f :: 0x8b :: b2 :: b3 :: b4 :: r) = some .gzip := by
+  simp [JsonText.nifflerSniff]
+
+/-- a JSON text (it starts with `[` or white space) of five bytes or more is read as it is -/
+theorem niffler_plain (b0 b1 b2 b3 b4 : Nat) (r : List Nat) (h : b0 = 0x5b ∨ b0 = 0x20 ∨ b0 = 0x0a) :
+    JsonText.nifflerSniff (b0 :: b1 :: b2 :: b3 :: b4 :: r) = some .none := by
+  rcases h with rfl | rfl | rfl <;> simp [JsonText.nifflerSniff]
+
+/-- bzip2 / zstd / xz are recognised and refused (only `gz` is compiled in), a file shorter than
+five bytes is refused: NifflerError in each case -/
+theorem niffler_refused :
+    JsonText.nifflerLayer ⟨[0x42, 0x5a, 0x68, 0x39, 0x31], false⟩ ⟨[], false⟩ = .error .niffler ∧
+    JsonText.nifflerLayer ⟨[0x28, 0xb5, 0x2f, 0xfd, 0x00], false⟩ ⟨[], false⟩ = .error .niffler ∧
+    JsonText.nifflerLayer ⟨[0xfd, 0x37, 0x7a, 0x58, 0x5a], false⟩ ⟨[], false⟩ = .error .niffler ∧
+    JsonText.nifflerLayer ⟨[0x5b, 0x5d], false⟩ ⟨[], false⟩ = .error .niffler := ⟨rfl, rfl, rfl, rfl⟩
+
+/-- `signatures_load_path` sniffs twice (`niffler::from_path`, then `Signature::from_reader`),
+`signatures_load_buffer` once: a doubly gzipped file loads by path and is a serde error as a buffer -/
+theorem path_sniffs_twice (gzgz gz : List Nat) (text : List Char) (sigs : List Sig)
+    (h1 : JsonText.nifflerSniff gzgz = some .gzip) (h2 : JsonText.nifflerSniff gz = some .gzip)
+    (hu : JsonText.utf8Text gz = none)                -- compressed bytes are not UTF-8 text
+    (ht : JsonText.readStream ⟨text.map Char.toNat, false⟩ = .ok (sigs, 0)) :
+    JsonText.ffiLoadBytes false gzgz ⟨gz, false⟩ ⟨text.map Char.toNat, false⟩ 0 none = .error .serde ∧
+    JsonText.ffiLoadBytes true gzgz ⟨gz, false⟩ ⟨text.map Char.toNat, false⟩ 0 none =
+      .ok (loadSignatures none none sigs) := by
+  constructor
+  · simp [JsonText.ffiLoadBytes, JsonText.nifflerLayer, h1, bind, Except.bind, pure, Except.pure,
+      JsonText.readStream, hu]
+  · simp [JsonText.ffiLoadBytes, JsonText.nifflerLayer, h1, h2, bind, Except.bind, pure, Except.pure, ht]
+
+/-- a gzip stream that breaks off is a text followed by an error: SerdeError -- unless it breaks within
+its first five bytes and is read by path, where the second sniff reports it (NifflerError) -/
+theorem damaged_gzip (gz : List Nat) (part : List Nat) (h1 : JsonText.nifflerSniff gz = some .gzip)
+    (hp : part.length < 5) :
+    JsonText.ffiLoadBytes true gz ⟨part, true⟩ ⟨[], false⟩ 0 none = .error .niffler := by
+  simp [JsonText.ffiLoadBytes, JsonText.nifflerLayer, h1, niffler_needs_five_bytes part hp, bind, Except.bind,
+    pure, Except.pure]
+
+/-! ### (G) pickling is a state tuple and a constructor call -/
+
+/-- `pickle.loads(pickle.dumps(mh))` = `__setstate__(__getstate__())`; the state is
+`(num, stored ksize, is_protein, dayhoff, hp, hashes, None, track_abundance, max_hash, seed)` -/
+theorem pickle_is_state_roundtrip (m : MH) : Py.pickleMH m = (Py.getState m).map Py.ofState :=
+  pickleMH_eq_state m
+
+/-- the state of a valid sketch: its parameters, flags and (hash, abundance) pairs -- abundances included -/
+theorem state_of_valid_sketch {m : MH} (h : PyStable m) :
+    Py.getState m = .ok { num := m.num, ksize := m.ksize, isProtein := m.hf == 2, dayhoff := m.hf == 3,
+                          hp := m.hf == 4, hashes := m.pairs, track := m.trackAbundance, maxHash := m.maxHash,
+                          seed := m.seed } :=
+  getState_stable h
+
+/-- the md5 cache is NOT carried over, for any sketch (valid or not, stale cache or not): what is
+unpickled starts with an empty cache, so its md5 is computed from its own content (C11) -/
+theorem pickle_md5_not_carried {m m' : MH} (h : Py.pickleMH m = .ok m') : m'.md5 = none :=
+  pickleMH_md5_none h
+
+theorem unpickled_md5_valid {m m' : MH} (h : Py.pickleMH m = .ok m') : m'.md5sum.2 = ⟨m'.ksize, m'.mins⟩ :=
+  C11.md5sum_eq_digest (Or.inl (pickleMH_md5_none h))
+
+/-- `SourmashSignature.__reduce__`: `(SourmashSignature, (minhash, name, filename))` -/
+theorem pickle_sig_is_state (s : Sig) : Py.pickleSig s = (Py.reduceSig s).map Py.ofSigState :=
+  pickleSig_eq_state s
+
+/-- an unpickled signature holds one sketch with a valid md5 cache and no string from a file -/
+theorem unpickled_sig_cache_ok {s s' : Sig} (h : Py.pickleSig s = .ok s') : ∀ sk ∈ s'.sketches, sk.CacheOK := by
+  rw [pickleSig_eq_state] at h
+  cases hr : Py.reduceSig s with
+  | error e => rw [hr] at h; cases h
+  | ok st =>
+    rw [hr] at h
+    injection h with h
+    subst h
+    intro sk hsk
+    unfold Py.ofSigState at hsk
+    rw [mkSig_eq] at hsk
+    simp only [List.mem_singleton] at hsk
+    subst hsk
+    have hm := ofState_md5_none st.minhash
+    refine ⟨?_, Or.inr ?_⟩
+    · simp [Sk.touch, Sk.md5sum, Sk.ofMH]
+    · simp [Sk.touch, Sk.md5sum, Sk.ofMH, MH.md5sum, hm, MH.digest]
+
+/- FULL STATEMENT (not proved / false):
+     theorem copy_unchanged (s : Sig) (sk : Sk) (h : s.sketches = [sk]) : ∃ s', Py.copySig s = .ok s' ∧ Sig.Same s' s
+   ("signatures survive pickling and copying unchanged", for EVERY signature object.)
+   False for a signature whose envelope is not the default one -- which since d8387c1 is what
+   loading a foreign file gives: `__copy__` / `to_mutable` / `__reduce__` pass only
+   `(minhash, name, filename)` to the constructor, so license, class, email, version and
+   hash_function are reset (and a name is cut at NUL).  True for every signature the Python API
+   can build (`copy_eq_sig`, `pickle_roundtrip_sig`: `PyNormal`).  Finding C09.5. -/
+theorem copy_resets_license_counterexample :
+    ∃ s s', (decodeDoc [sig0 [sk0] "CC-BY"]).toOption = some [s] ∧ s.license = "CC-BY" ∧
+      Py.copySig s = .ok s' ∧ s'.license = "CC0" ∧
+      ∃ s'', Py.pickleSig s = .ok s'' ∧ s''.license = "CC0" :=
+  ⟨_, _, rfl, rfl, rfl, rfl, _, rfl, rfl⟩
 
 /-! ### the translator's tables are the ones the model was written against -/
 
